@@ -90,7 +90,107 @@ pub fn has_user_cow(reg: &PortableRegistry) -> bool {
     })
 }
 
+/// run a constructed program through the wire-fidelity oracle (used by finding probes)
+pub fn wire_probe(prog: &crate::program::Program, sig: &str) -> Result<(), Failure> {
+    let low = crate::lower::lower(prog);
+    let spec = SettingsSpec::default();
+    let text = prog.to_text();
+    match run_typegen(&low.registry, &spec) {
+        GenResult::Ok(out) => check_all_ids(&low.registry, &spec, &out, None)
+            .map(|_| ())
+            .map_err(|(id, msg, _)| Failure::new(msg).sig(sig).with(json!({"program": text, "id": id, "tokens": out.tokens}))),
+        GenResult::Err(e) => Err(Failure::new(format!("generation failed: {e:?}")).sig(sig).with(json!({"program": text}))),
+        GenResult::Panic(p) => Err(Failure::new(format!("generation panicked: {p}")).sig(sig).with(json!({"program": text}))),
+        GenResult::Unparsable(e, t) => Err(Failure::new(e).sig(sig).with(json!({"program": text, "tokens": t}))),
+    }
+}
+
+fn probe_prog(fields: Vec<(&str, crate::program::Ty)>, extra: Vec<crate::program::Def>, params: Vec<&str>, roots_args: Vec<Vec<crate::program::Ty>>) -> crate::program::Program {
+    use crate::program::*;
+    let mut defs = extra;
+    let idx = defs.len();
+    defs.push(Def {
+        path: vec!["krate".into(), "Probe".into()],
+        params: params.iter().map(|n| ParamDecl { name: n.to_string(), skipped: false, config: false }).collect(),
+        docs: vec![],
+        body: Body::Struct(Fields::Named(
+            fields
+                .into_iter()
+                .map(|(n, t)| FieldDef { name: Some(n.into()), ty: t, compact_attr: false, docs: vec![] })
+                .collect(),
+        )),
+        config_inner: None,
+    });
+    Program {
+        defs,
+        roots: roots_args.into_iter().map(|a| Ty::Def(idx, a)).collect(),
+    }
+}
+
 impl Property for C01 {
+    fn probes(&self) -> Vec<Probe> {
+        use crate::program::*;
+        vec![
+            Probe {
+                signature: "prelude:duration-unknown",
+                what: "a registry containing core::time::Duration",
+                run: Box::new(|| {
+                    wire_probe(&probe_prog(vec![("d", Ty::Duration)], vec![], vec![], vec![vec![]]), "prelude:duration-unknown")
+                }),
+            },
+            Probe {
+                signature: "cow:ident-without-namespace-check",
+                what: "user types whose last path segment is Cow",
+                run: Box::new(|| {
+                    let cow_unit = Def { path: vec!["farm".into(), "Cow".into()], params: vec![], docs: vec![], body: Body::Struct(Fields::Unit), config_inner: None };
+                    let cow_gen = Def {
+                        path: vec!["barn".into(), "Cow".into()],
+                        params: vec![ParamDecl { name: "T".into(), skipped: false, config: false }],
+                        docs: vec![],
+                        body: Body::Struct(Fields::Named(vec![
+                            FieldDef { name: Some("a".into()), ty: Ty::Prim(Prim::U8), compact_attr: false, docs: vec![] },
+                            FieldDef { name: Some("b".into()), ty: Ty::Param(0), compact_attr: false, docs: vec![] },
+                        ])),
+                        config_inner: None,
+                    };
+                    wire_probe(
+                        &probe_prog(
+                            vec![("x", Ty::Def(0, vec![])), ("y", Ty::Def(1, vec![Ty::Prim(Prim::U32)]))],
+                            vec![cow_unit, cow_gen],
+                            vec![],
+                            vec![vec![]],
+                        ),
+                        "cow:ident-without-namespace-check",
+                    )
+                }),
+            },
+            Probe {
+                signature: "cow:nested-cow-unwrapped-once",
+                what: "Cow<'static, Cow<'static, str>>",
+                run: Box::new(|| {
+                    wire_probe(
+                        &probe_prog(vec![("c", Ty::Cow(Box::new(Ty::Cow(Box::new(Ty::Prim(Prim::Str))))))], vec![], vec![], vec![vec![]]),
+                        "cow:nested-cow-unwrapped-once",
+                    )
+                }),
+            },
+            Probe {
+                signature: "cow:parameter-not-recovered",
+                what: "struct S<T> { a: Cow<'static, T> } with two instantiations",
+                run: Box::new(|| {
+                    wire_probe(
+                        &probe_prog(
+                            vec![("a", Ty::Cow(Box::new(Ty::Param(0))))],
+                            vec![],
+                            vec!["T"],
+                            vec![vec![Ty::Prim(Prim::Char)], vec![Ty::Prim(Prim::Str)]],
+                        ),
+                        "cow:parameter-not-recovered",
+                    )
+                }),
+            },
+        ]
+    }
     fn id(&self) -> &'static str {
         "C01"
     }
